@@ -796,6 +796,9 @@ where
 
         assert_eq!(proof.len(), query_to_labels_map.len());
 
+        // `log_d` is ceil(log2 (d + 1)), which is the number of steps to compute all of the challenges
+        let log_d = ark_std::log2(vk.supported_degree() + 1) as usize;
+
         let mut randomizer = G::ScalarField::one();
 
         let mut combined_check_poly = P::zero();
@@ -819,6 +822,17 @@ where
 
                 comms.push(commitment);
                 vals.push(*v_i);
+            }
+
+            if p.l_vec.len() != p.r_vec.len() || p.l_vec.len() != log_d {
+                return Err(Error::IncorrectInputLength(
+                    format!(
+                        "Expected proof vectors to be {:}. Instead, l_vec size is {:} and r_vec size is {:}",
+                        log_d,
+                        p.l_vec.len(),
+                        p.r_vec.len()
+                    )
+                ));
             }
 
             let check_poly =
